@@ -180,7 +180,14 @@ impl<'a> Parser<'a> {
 
                             // if CharData, then Name then ttl_class_type
                             Token::CharData(data) => {
-                                cx.current_name = Some(Name::parse(&data, cx.origin.as_ref())?);
+                                let name = Name::parse(&data, cx.origin.as_ref())?;
+                                // RFC 1035 5.1: "A relative name is an error when no origin is available."
+                                if !name.is_fqdn() {
+                                    return Err(ParseError::Message(
+                                        "relative owner name while no origin is in force",
+                                    ));
+                                }
+                                cx.current_name = Some(name);
                                 State::TtlClassType
                             }
 
